@@ -28,7 +28,9 @@ def check_one(case, ctx, deep):
     if ref.intent_of(ref.full_o):
         classes.append('top_intent_nonempty')
     ctx.case(plain, len(expected) >= 4, classes)
-    for _ in range(2 if deep else 1):
+    for rep_ in range(2 if deep else 1):
+        if rep_:
+            lib.interfere(case)   # other contexts created and queried in between (DESIGN.md 10.2)
         context = ctx.call('Context()', plain, lib.context_of, case)
         lattice = ctx.call('context.lattice', plain, lambda: context.lattice)
         listed = ctx.call('iter(lattice)', plain, lambda: [(c.extent, c.intent) for c in lattice])
